@@ -348,6 +348,23 @@ func runC18Case(c *Ctx, idx int) *CaseResult {
 	if len(prog.Rules) > 1 {
 		prog.Rules[1].Sal, prog.Rules[1].HasSal = sal2, true
 	}
+	// "desc" and "salience" are documented as optional (defaults "" and 0): leave them out of
+	// some rules - in particular of a rule that follows one that gives them
+	or := c.Rng(idx, 3)
+	for i, ru := range rules {
+		m := ru.(map[string]interface{})
+		if or.Intn(4) == 0 {
+			delete(m, "desc")
+			prog.Rules[i].Desc = ""
+			cr.inc("rules_without_desc")
+		}
+		// (the sink rule S must keep the higher salience when there is a condition rule)
+		if or.Intn(4) == 0 && (len(rules) == 1 || (i == 1 && sal > 0) || (i == 0 && sal2 < 0)) {
+			delete(m, "salience")
+			prog.Rules[i].Sal, prog.Rules[i].HasSal = 0, false
+			cr.inc("rules_without_salience")
+		}
+	}
 	array := r.Intn(2) == 0 || len(rules) > 1
 	var data []byte
 	if array {
@@ -480,12 +497,21 @@ var c18Malformed = []malformed{
 
 func runC18Malformed(c *Ctx, idx int, cr *CaseResult) *CaseResult {
 	m := c18Malformed[idx]
+	const good = `{"name":"Good","desc":"fine","salience":7,"when":"true","then":["F.B = 1"]}`
 	for via := 0; via < 2; via++ {
-		for _, array := range []bool{false, true} {
+		// alone, as the only element of a rule set, behind and in front of a well-formed rule
+		for form := 0; form < 4; form++ {
+			array := form > 0
 			data := m.JSON
-			if array && strings.HasPrefix(strings.TrimSpace(data), "{") {
+			isObj := strings.HasPrefix(strings.TrimSpace(data), "{")
+			switch {
+			case form == 1 && isObj:
 				data = "[" + data + "]"
-			} else if array {
+			case form == 2 && isObj:
+				data = "[" + good + "," + data + "]"
+			case form == 3 && isObj:
+				data = "[" + data + "," + good + "]"
+			case form > 0:
 				continue
 			}
 			grl, lib, terr, berr, pn := c18Translate(via, []byte(data), array)
